@@ -1,1 +1,32 @@
-fn main() { eprintln!("engine not built yet"); std::process::exit(2); }
+//! Engine `enumx` for the HTTP properties: `mc-http C14|C15|C16 --tier quick|thorough [--replay <path>]`.
+
+mod app;
+mod c14;
+mod c15;
+mod c16;
+mod util;
+
+fn main() {
+    let args: Vec<String> = std::env::args().skip(1).collect();
+    let Some(id) = args.first().cloned() else {
+        eprintln!("usage: mc-http C14|C15|C16 --tier quick|thorough [--replay <path>]");
+        std::process::exit(2);
+    };
+    // error values of http-types are anyhow errors: with backtraces enabled each one walks the
+    // stack (slow) and prints it into panic messages
+    std::env::set_var("RUST_BACKTRACE", "0");
+    std::env::set_var("RUST_LIB_BACKTRACE", "0");
+    mc_kit::install_panic_hook();
+    let tier = mc_kit::Tier::from_args(&args);
+    let replay = mc_kit::arg_value(&args, "--replay");
+    let code = match (id.as_str(), replay) {
+        ("C14", None) => c14::run(tier),
+        ("C14", Some(p)) => c14::replay(&p),
+        ("C15", None) => c15::run(tier),
+        ("C15", Some(p)) => c15::replay(&p),
+        ("C16", None) => c16::run(tier),
+        ("C16", Some(p)) => c16::replay(&p),
+        _ => mc_kit::machinery_error(&format!("mc-http does not decide {id}")),
+    };
+    std::process::exit(code);
+}
